@@ -94,7 +94,8 @@ RULE = ('(a) router race: routers generated from 3 route sets (fields, int/uuid 
         'CONDITIONAL LOCK ACQUISITIONS (every <expr>.acquire(...) call with an argument - blocking=False, timeout=t - and what becomes of its result: ignored / tested / bound to a name that only guards the release in a finally clause ...): the kind lock-protected is proved for `with lock:` / a blocking acquire only, any conditional acquisition is an item of its own; '
         'every memoised function the scan finds - in the table or not, module-level or created in a method and stored on a default-constructed instance - is called twice with equal PRNG arguments, the first result mutated in place deeply, the next call compared with a fresh uncached computation; for the private mutable-result memos of mediatypes the same at their only caller quality(); '
         '(d) memo model: for each lru_cache-wrapped function of the inventory, PRNG call sequences of 0.5-3 x maxsize calls over maxsize+k keys (hits, misses, evictions, exceptions, cache_clear) on one thread, and 2-3 threads with 1-3 calls each over 1-3 keys under the deterministic scheduler with 1-4 PRNG preemptions inside the Python body (between lookup and store), the cache preloaded to (almost) full in 60% of the races; the ASGI header-name cache with 20-90 names; value/hits/misses/size after every call are replayed through the model; '
-        'non-trivial = at least one preemption took place while another request was in flight / a sequence with hits and evictions / an inventory item; distinct = distinct (route set, paths, switch points) / (app, requests, schedule seed) / (function, call sequence) / item')
+        'non-trivial = at least one preemption took place while another request was in flight / a sequence with hits and evictions / an inventory item; distinct = distinct (route set, paths, switch points) / (app, requests, schedule seed) / (function, call sequence) / item'
+        ' (e) access shapes + threads x ASGI request object: the AST inventory also records HOW every inventoried shared container is read - an iteration over it (for / comprehension / .values() .items() .keys() / list() sorted() tuple() any() join() / *X / range(len(X))) outside a `with <lock>:` adds the form iter:<how> to the item\'s shape, which no memo / lazy / read-only kind admits (smdriver shapeAllows); dynamically one ASGI app is driven by 2-3 threads with one event loop each under the deterministic scheduler: requests read headers through req.get_header() (3 accessor forms; middleware + responder) with spellings that are memoised already / first-time / the same header spelled differently / twins, the process-wide header-name memo holding 0, 1, 2, 3, 5, cap/2, cap-2, cap-1, cap, cap+1 names when they arrive (cap from the inventory table), under EVERY single preemption of thread 0 at a line event inside falcon/asgi/request.py (other request(s) processed in the window) + PRNG double preemptions for 3 threads; oracle: the responses of some one-at-a-time order (all orders run from the same memo state)')
 PARTIAL = ('proof, partial: proved are the locking protocol of the lazy router compile (given one lock that exists before the first request - which is what an eagerly created lock provides under every schedule, Ll.eager_lock_mutual_exclusion, and what a lock created on first use does not, Ll.lazy_lock_witness), the transparency of a shared bounded memo and of racing lazy initialisation under every schedule, and their composition with per-request programs '
            '(Cp.falcon_shared_noninterference). The hypothesis of that composition - every write after import goes to the request\'s own objects or to an inventoried item of kind memo / lazy / lock-protected - is established by a checked '
            'syntactic inventory (AST detectors + hand classification, tied to the source on every run), not by a semantic analysis of the Python code: aliasing beyond local helper closures, setattr/__dict__ writes and state outside falcon/ are not seen; '
@@ -106,7 +107,7 @@ JOBS = {'quick': 4, 'thorough': 16}
 
 
 def run(ctx):
-    for part in (_inventory, _memo_oracles, _memo_tie, _router_race, _asgi_tasks, _asgi_wrapped_sync, _wsgi_threads, _audit_after_traffic):
+    for part in (_inventory, _memo_oracles, _memo_tie, _router_race, _asgi_tasks, _asgi_wrapped_sync, _asgi_threads, _wsgi_threads, _audit_after_traffic):
         try:
             part(ctx)
         except Exception as e:  # noqa
@@ -1473,6 +1474,201 @@ def _asgi_wrapped_sync(ctx):
     asyncio.run(main())
 
 
+O_AT = ('ASGI, one event loop per thread (2-3 threads) over ONE app, requests reading headers through the memoised accessor req.get_header() with spellings '
+        'the process has / has not seen before: under every explored schedule (preemption at line events inside falcon/asgi/request.py) every request '
+        'gets the response it gets in SOME one-at-a-time order (all orders tried)')
+_AT_HEADERS = ['ETag', 'If-Match', 'X-Request-Id', 'X-Trial', 'Accept-Language', 'X-Forwarded-For']
+_AT_ACCESS = ['req.get_header(name)', 'req.get_header(name, default=...)', 'req.get_header(name, required=True) for a header that is present']
+
+
+def _asgi_threads(ctx):
+    """Threads x the ASGI request object.  ASGI requests do run on several threads over one app object (one loop per worker thread; sync responders
+    behind wrap_sync_to_async).  The per-process state they share here is the header-name memo of get_header(); dimensions: how full the memo is when
+    the requests arrive (0 .. cap-1, cap; cap taken from the inventory table), whether a request's spelling is memoised already / a first-time
+    spelling / the same header spelled differently / the twin of the other request's spelling, where the reading happens (middleware + responder),
+    and the schedule: EVERY single preemption of thread 0 at a line event in falcon/asgi/request.py with the other request(s) processed in the window,
+    plus PRNG double preemptions with 3 threads."""
+    import asyncio
+    import itertools
+    import json
+    import os
+    import threading
+    import falcon
+    import falcon.asgi
+    import falcon.testing as ft
+    import lib_sched
+    rnd = ctx.rng
+    REQ_FILE = os.path.join(os.path.dirname(falcon.__file__), 'asgi', 'request.py')
+    cap = next((r[5].get('cap') for r in INVENTORY if r[1] == 'Request.get_header(_name_cache=)'), None) or 64
+    memo = _name_cache_of(falcon.asgi.Request)
+    ctx.count('asgi_threads_header_name_memo_located', int(memo is not None))
+    tls = threading.local()
+
+    class Reader:
+        async def on_get(self, req, resp):
+            how = req.get_param_as_int('how', default=0)
+            out = {}
+            for name in req.get_param_as_list('ask', default=[]):
+                if how == 1:
+                    out[name] = req.get_header(name, default='<absent>')
+                elif how == 2 and name.lower() in req.headers:
+                    out[name] = req.get_header(name, required=True)
+                else:
+                    out[name] = req.get_header(name)
+            resp.media = {'got': out, 'tok': req.context.tok}
+
+    class Tok:
+        async def process_request(self, req, resp):
+            req.context.tok = req.get_header('X-Tok')
+
+    app = falcon.asgi.App(middleware=[Tok()])
+    app.add_route('/read', Reader())
+
+    async def acall(spec):
+        scope = ft.create_scope(method='GET', path='/read', query_string=spec['qs'], headers=spec['headers'])
+        evs = [{'type': 'http.request', 'body': b'', 'more_body': False}]
+        sent = []
+
+        async def receive():
+            return evs.pop(0) if evs else {'type': 'http.disconnect'}
+
+        async def send(ev):
+            sent.append(ev)
+        await app(scope, receive, send)
+        status = next((e['status'] for e in sent if e['type'] == 'http.response.start'), None)
+        body = b''.join(e.get('body', b'') for e in sent if e['type'] == 'http.response.body')
+        try:
+            return (status, json.dumps(json.loads(body), sort_keys=True))
+        except ValueError:
+            return (status, body.decode('latin-1'))
+
+    def call(spec):
+        loop = getattr(tls, 'loop', None)
+        if loop is None:
+            loop = tls.loop = asyncio.new_event_loop()
+        return loop.run_until_complete(acall(spec))
+
+    warm_req = falcon.asgi.Request(ft.create_scope(path='/read', headers={}), None)
+
+    def prepare(fill_names):
+        """the state of the process when the requests arrive: exactly these spellings memoised (as after that much earlier traffic)"""
+        if memo is not None:
+            memo.clear()
+        for nm in fill_names:
+            warm_req.get_header(nm)
+
+    def respell(name, r):
+        return ''.join(c.upper() if r.random() < 0.5 else c.lower() for c in name)
+
+    def gen(i, pool):
+        tok = f'T{i}x{rnd.randrange(10**6)}'
+        k = rnd.choice([1, 1, 1, 2, 3])
+        asked = [rnd.choice(pool) for _ in range(k)]
+        hdrs = {'X-Tok': tok}
+        for nm in asked:
+            if rnd.random() < 0.85:
+                hdrs[nm] = f'v{i}-{rnd.randrange(1000)}'
+        how = rnd.randrange(len(_AT_ACCESS))
+        return {'tok': tok, 'method': 'GET', 'path': '/read', 'qs': '&'.join(['how=%d' % how] + ['ask=' + nm for nm in asked]), 'headers': hdrs,
+                'asks': asked, 'accessor': _AT_ACCESS[how]}
+
+    def outcome(f):
+        try:
+            return ('ok', f())
+        except BaseException as e:  # noqa
+            return ('exc', type(e).__name__, str(e)[:120])
+
+    ev_rec = {}
+
+    def tracer_for(s, i, record):
+        def local(frame, event, arg):
+            if event == 'line':
+                s.point(i)
+                if record and i == 0:
+                    ev_rec[s.ev] = '%s:%d (%s)' % ('falcon/asgi/request.py', frame.f_lineno, frame.f_code.co_name)
+            return local
+
+        def tr(frame, event, arg):
+            return local if frame.f_code.co_filename == REQ_FILE else None
+        return tr
+
+    def run_sched(specs, fill_names, sw, record=False):
+        prepare(fill_names)
+        s = lib_sched.Sched(len(specs), sw)
+        got = lib_sched.run_threads(s, [(lambda sp=sp: call(sp)) for sp in specs], lambda i: tracer_for(s, i, record))
+        return s, tuple(got)
+
+    # CPython 3.12 delivers no line events for the first frame of a freshly instrumented code object: number the events on a warmed-up interpreter
+    for _ in range(2):
+        run_sched([gen(0, ['X-Warm']), gen(1, ['X-Warm'])], [], {})
+    fills = sorted({0, 1, 1, 2, 3, 5, cap // 2, cap - 2, cap - 1, cap, cap + 1})
+    budget = ctx.n(6000, 120000)
+    runs = fails = 0
+    while runs < budget:
+        n = rnd.choice([2, 2, 2, 3])
+        fill = rnd.choice(fills + [1, 2, 3, cap - 1])
+        fill_names = ['X-Tok'][:fill] + ['X-Seen-%d' % j for j in range(max(0, fill - 1))]
+        base = rnd.sample(_AT_HEADERS, 2)
+        mode = rnd.choice(['distinct first-time spellings', 'distinct first-time spellings', 'the same header spelled differently', 'twins: the same first-time spelling',
+                           'one memoised spelling, one first-time'])
+        if mode == 'distinct first-time spellings':
+            pools = [[respell(base[i % 2], rnd) + ('-%d' % i if i > 1 else '')] for i in range(n)]
+        elif mode == 'the same header spelled differently':
+            pools = [[respell(base[0], rnd), base[0].lower()] for i in range(n)]
+        elif mode.startswith('twins'):
+            sp_ = respell(base[0], rnd)
+            pools = [[sp_] for i in range(n)]
+        else:
+            pools = [[fill_names[-1] if fill_names else 'X-Tok'] if i == 0 else [respell(base[1], rnd)] for i in range(n)]
+        specs = [gen(i, pools[i]) for i in range(n)]
+        serial_outcomes = {}
+        for perm in itertools.permutations(range(n)):
+            prepare(fill_names)
+            res = [None] * n
+            for i in perm:
+                res[i] = outcome(lambda: call(specs[i]))
+            serial_outcomes.setdefault(tuple(res), perm)
+        ev_rec.clear()
+        s0, got0 = run_sched(specs, fill_names, {}, record=True)
+        E0 = max(ev_rec) if ev_rec else 0
+        first_time = sum(1 for sp in specs for nm in sp['asks'] if nm not in fill_names)
+        ctx.count('asgi_threads_cases')
+        ctx.count('asgi_threads_%dthr' % n)
+        ctx.count('asgi_threads_memo_fill_%s' % ('0' if fill == 0 else 'cap-1' if fill == cap - 1 else 'at_or_over_cap' if fill >= cap else 'cap-2' if fill == cap - 2 else '1..cap/2'))
+        ctx.count('asgi_threads_mode_' + mode.split(':')[0].replace(' ', '_').replace(',', ''))
+        ctx.count('asgi_threads_first_time_spellings', first_time)
+        ctx.count('asgi_threads_line_events_of_thread_0_in_asgi_request_py', E0)
+        scheds = [{}] + [{p_: 1} for p_ in range(1, E0 + 1)]
+        if n == 3:
+            scheds += [{p_: 1, p_ + rnd.randrange(1, E0 + 1): rnd.choice([1, 2])} for p_ in rnd.sample(range(1, E0 + 1), min(E0, 12))]
+            scheds += [{p_: 2} for p_ in range(1, E0 + 1, 3)]
+        for sw in scheds:
+            s, got = (s0, got0) if not sw else run_sched(specs, fill_names, sw)
+            runs += 1
+            why = None
+            if s.dead or any(g[0] == 'deadlock' for g in got):
+                why = 'deadlock / a thread did not finish'
+            elif got not in serial_outcomes:
+                bad = [i for i in range(n) if all(got[i] != so[i] for so in serial_outcomes)]
+                why = (f'request(s) {bad} got {[got[i] for i in bad]!r}; one at a time (every order) they get {[sorted({so[i] for so in serial_outcomes}) for i in bad]!r}' if bad else
+                       f'the responses {got!r} are not the responses of any one-at-a-time order: {sorted(serial_outcomes)!r}')
+            ctx.oracle(O_AT, why is None, why, {'interface': 'asgi', 'mode': 'one event loop per thread, deterministic scheduler, preemption at line events inside falcon/asgi/request.py',
+                                                'requests': specs, 'spellings': mode, 'header_names_memoised_before_the_requests': len(fill_names),
+                                                'memoised_spellings': fill_names[:4] + (['...'] if len(fill_names) > 4 else []), 'memo_cap': cap,
+                                                'switch_points (global line event -> pass to the k-th next runnable thread)': sorted(sw.items()),
+                                                'thread_0_preempted_before': [ev_rec.get(p_) for p_ in sorted(sw)],
+                                                'app': 'falcon.asgi.App(middleware=[Tok: req.context.tok = req.get_header("X-Tok")]); GET /read?ask=<name>.. -> {name: req.get_header(name)}'})
+            ctx.seen(('at', str(specs), len(fill_names), tuple(sorted(sw.items()))), s.preemptions > 0 and first_time > 0)
+            ctx.count('asgi_threads_schedules')
+            ctx.count('asgi_threads_preemptions', s.preemptions)
+            if why is not None:
+                fails += 1
+                ctx.count('asgi_threads_failures')
+        if fails >= 20:
+            break
+    prepare([])
+
+
 def _wsgi_threads(ctx):
     import io
     import sys
@@ -1759,7 +1955,7 @@ INVENTORY = [
     ('falcon/app.py', 'App._error_handlers', 'inst-attr:store[]', K_CONF, 'written by add_error_handler() only', {}),
     ('falcon/app.py', 'App._middleware', 'inst-attr:rebind', K_CONF, 'rebuilt by add_middleware() only', {}),
     ('falcon/app.py', 'App._serialize_error', 'inst-attr:rebind', K_CONF, 'set_error_serializer() only', {}),
-    ('falcon/app.py', 'App._sink_and_static_routes', 'inst-attr:rebind', K_CONF, '_update_sink_and_static_routes(), called from add_sink()/add_static_route() only; a tuple', {}),
+    ('falcon/app.py', 'App._sink_and_static_routes', 'inst-attr:iter:for,rebind', K_CONF, '_update_sink_and_static_routes(), called from add_sink()/add_static_route() only; a tuple (immutable: the per-request loop over it in _get_responder iterates an object nobody can change)', {}),
     ('falcon/app.py', 'App._sinks', 'inst-attr:.insert', K_CONF, 'add_sink() only', {}),
     ('falcon/app.py', 'App._static_routes', 'inst-attr:.insert', K_CONF, 'add_static_route() only', {}),
     ('falcon/app.py', 'App._unprepared_middleware', 'inst-attr:aug', K_CONF, 'add_middleware() only', {}),
@@ -1809,10 +2005,10 @@ INVENTORY = [
     ('falcon/routing/compiled.py', 'CompiledRouter._finder_src', 'inst-attr:rebind', K_LOCK, '_compile() only', {}),
     ('falcon/routing/compiled.py', 'CompiledRouter._patterns', 'inst-attr:rebind', K_LOCK, '_compile() only (reset, then filled through the alias `patterns`)', {}),
     ('falcon/routing/compiled.py', 'CompiledRouter._return_values', 'inst-attr:rebind', K_LOCK, '_compile() only (reset, then filled through the alias `return_values`)', {}),
-    ('falcon/routing/compiled.py', '_CxParent._children', 'inst-attr:.append', K_LOCK, 'code-generation tree built inside _compile()', {}),
+    ('falcon/routing/compiled.py', '_CxParent._children', 'inst-attr:.append,iter:comp', K_LOCK, 'code-generation tree built inside _compile() and rendered by src() in the same call, under the compile lock of the router (not lexically: _compile_and_find holds it)', {}),
     # ---- false positives: objects that are not shared between requests
     ('falcon/inspect.py', 'StringVisitor.indent', 'inst-attr:aug,rebind', K_REQ, 'one visitor per inspect call; not on the request path', {}),
-    ('falcon/util/structures.py', 'CaseInsensitiveDict._store', 'inst-attr:del[],store[]', K_REQ, 'generic mapping type; an instance belongs to whoever created it (falcon itself only uses it in falcon.testing)', {}),
+    ('falcon/util/structures.py', 'CaseInsensitiveDict._store', 'inst-attr:del[],iter:comp.items(),iter:comp.values(),store[]', K_REQ, 'generic mapping type; an instance belongs to whoever created it (falcon itself only uses it in falcon.testing)', {}),
     # ---- closure cells: objects created once by a factory function and kept alive by the function it returns (a responder made per route at
     #      add_route(), a wrapper made per decorated responder ...).  Not one of them is a fresh container/instance that the inner function
     #      raises or returns (that shape - a pre-built exception handed to every request - is admitted by no proved kind)
